@@ -22,6 +22,18 @@ def grammars(seed, n):
         out.append(g)
     for g in out:
         g["inputs"] = [[rng.randrange(6) for _ in range(rng.randint(0, 6))] for _ in range(6)]
+    # the optional declarations the document generator does not write (%parse-param, %parse-generics):
+    # variants of every second instance with one or both inserted at the end of the declarations
+    # (found missing by seeded change C14-m13: a skipped `parse_param` field)
+    r2 = random.Random(seed * 29 + 14)
+    PP = ["%parse-param p: u8", "%parse-param ctx: &'a mut Vec<u64>", "%parse-param st: std::collections::HashMap<String, (u8, é)>"]
+    PG = ["%parse-generics 'a", "%parse-generics 'a, K, V: Clone"]
+    for g in list(out):
+        k = g["y"].find("\n%%")
+        if k < 0 or "%parse-" in g["y"] or r2.random() < 0.5:
+            continue
+        ins = r2.choice([[r2.choice(PP)], [r2.choice(PG)], [r2.choice(PP), r2.choice(PG)], [r2.choice(PG), r2.choice(PP)]])
+        out.append(dict(g, id=g["id"] + "+pp", y=g["y"][:k] + "\n" + "\n".join(ins) + g["y"][k:]))
     return out
 
 
@@ -96,6 +108,7 @@ def c14(pid, tier, replay):
         widths["u%d/%s" % (e["width"], e["format"])] = widths.get("u%d/%s" % (e["width"], e["format"]), 0) + 1
     res.cov.update(evaluations=len(rec), distinct_nontrivial=len(nontrivial),
                    rule="one evaluation = (grammar, storage width, integer encoding) round trip with the full observation (every accessor, every cell, views, conflicts, parses of 6 inputs) compared before / after; distinct non-trivial = distinct grammars with >= 2 states and at least one optional declaration (precedence, %epp, %avoid_insert, %expect, actions, non-ASCII text)",
+                   with_parse_param_or_generics=len(set(e["id"] for e in built if e["id"].endswith("+pp"))),
                    round_trips=widths, table_size_mod_64=sorted(set(e["optional"]["table_bits_mod64"] for e in built))[:20])
     res.cov["traces_validated_against_impl"] = len(rec)
     for i in insts[:2]:
